@@ -156,4 +156,94 @@ mod kani_c20 {
         assert!(got.is_none());
         core::mem::forget(w);
     }
+
+    /// which optional entry points a wrapper has (private fields: this module is appended in-crate)
+    macro_rules! flags {
+        ($w:expr) => {{
+            let w = $w;
+            let _ = Contract::<Empty, Empty>::checksum(&w);
+            let f = (w.reply_fn.is_some(), w.sudo_fn.is_some(), w.migrate_fn.is_some());
+            core::mem::forget(w);
+            f
+        }};
+    }
+
+    /// every ordered pair of the six entry-point steps (reply / reply_empty / sudo / sudo_empty /
+    /// migrate / migrate_empty): afterwards the wrapper has exactly the entry points that were supplied,
+    /// whatever the order (seed C20c: with_sudo_empty dropped an earlier reply)
+    #[kani::proof]
+    fn c20_entry_points_kept_by_every_ordered_pair_of_steps() {
+        let a: u8 = kani::any();
+        let b: u8 = kani::any();
+        kani::assume(a < 6 && b < 6);
+        let (r, s, m) = match (a, b) {
+            (0, 0) => flags!(ContractWrapper::new(ex, ex, qu).with_reply(rp).with_reply(rp)),
+            (0, 1) => flags!(ContractWrapper::new(ex, ex, qu).with_reply(rp).with_reply_empty(rp)),
+            (0, 2) => flags!(ContractWrapper::new(ex, ex, qu).with_reply(rp).with_sudo(pm)),
+            (0, 3) => flags!(ContractWrapper::new(ex, ex, qu).with_reply(rp).with_sudo_empty(pm)),
+            (0, 4) => flags!(ContractWrapper::new(ex, ex, qu).with_reply(rp).with_migrate(pm)),
+            (0, 5) => flags!(ContractWrapper::new(ex, ex, qu).with_reply(rp).with_migrate_empty(pm)),
+            (1, 0) => flags!(ContractWrapper::new(ex, ex, qu).with_reply_empty(rp).with_reply(rp)),
+            (1, 1) => flags!(ContractWrapper::new(ex, ex, qu).with_reply_empty(rp).with_reply_empty(rp)),
+            (1, 2) => flags!(ContractWrapper::new(ex, ex, qu).with_reply_empty(rp).with_sudo(pm)),
+            (1, 3) => flags!(ContractWrapper::new(ex, ex, qu).with_reply_empty(rp).with_sudo_empty(pm)),
+            (1, 4) => flags!(ContractWrapper::new(ex, ex, qu).with_reply_empty(rp).with_migrate(pm)),
+            (1, 5) => flags!(ContractWrapper::new(ex, ex, qu).with_reply_empty(rp).with_migrate_empty(pm)),
+            (2, 0) => flags!(ContractWrapper::new(ex, ex, qu).with_sudo(pm).with_reply(rp)),
+            (2, 1) => flags!(ContractWrapper::new(ex, ex, qu).with_sudo(pm).with_reply_empty(rp)),
+            (2, 2) => flags!(ContractWrapper::new(ex, ex, qu).with_sudo(pm).with_sudo(pm)),
+            (2, 3) => flags!(ContractWrapper::new(ex, ex, qu).with_sudo(pm).with_sudo_empty(pm)),
+            (2, 4) => flags!(ContractWrapper::new(ex, ex, qu).with_sudo(pm).with_migrate(pm)),
+            (2, 5) => flags!(ContractWrapper::new(ex, ex, qu).with_sudo(pm).with_migrate_empty(pm)),
+            (3, 0) => flags!(ContractWrapper::new(ex, ex, qu).with_sudo_empty(pm).with_reply(rp)),
+            (3, 1) => flags!(ContractWrapper::new(ex, ex, qu).with_sudo_empty(pm).with_reply_empty(rp)),
+            (3, 2) => flags!(ContractWrapper::new(ex, ex, qu).with_sudo_empty(pm).with_sudo(pm)),
+            (3, 3) => flags!(ContractWrapper::new(ex, ex, qu).with_sudo_empty(pm).with_sudo_empty(pm)),
+            (3, 4) => flags!(ContractWrapper::new(ex, ex, qu).with_sudo_empty(pm).with_migrate(pm)),
+            (3, 5) => flags!(ContractWrapper::new(ex, ex, qu).with_sudo_empty(pm).with_migrate_empty(pm)),
+            (4, 0) => flags!(ContractWrapper::new(ex, ex, qu).with_migrate(pm).with_reply(rp)),
+            (4, 1) => flags!(ContractWrapper::new(ex, ex, qu).with_migrate(pm).with_reply_empty(rp)),
+            (4, 2) => flags!(ContractWrapper::new(ex, ex, qu).with_migrate(pm).with_sudo(pm)),
+            (4, 3) => flags!(ContractWrapper::new(ex, ex, qu).with_migrate(pm).with_sudo_empty(pm)),
+            (4, 4) => flags!(ContractWrapper::new(ex, ex, qu).with_migrate(pm).with_migrate(pm)),
+            (4, 5) => flags!(ContractWrapper::new(ex, ex, qu).with_migrate(pm).with_migrate_empty(pm)),
+            (5, 0) => flags!(ContractWrapper::new(ex, ex, qu).with_migrate_empty(pm).with_reply(rp)),
+            (5, 1) => flags!(ContractWrapper::new(ex, ex, qu).with_migrate_empty(pm).with_reply_empty(rp)),
+            (5, 2) => flags!(ContractWrapper::new(ex, ex, qu).with_migrate_empty(pm).with_sudo(pm)),
+            (5, 3) => flags!(ContractWrapper::new(ex, ex, qu).with_migrate_empty(pm).with_sudo_empty(pm)),
+            (5, 4) => flags!(ContractWrapper::new(ex, ex, qu).with_migrate_empty(pm).with_migrate(pm)),
+            (5, 5) => flags!(ContractWrapper::new(ex, ex, qu).with_migrate_empty(pm).with_migrate_empty(pm)),
+            _ => (false, false, false),
+        };
+        kani::cover!(a == 1 && b == 3, "reply_empty then sudo_empty reached");
+        assert!(r == (a / 2 == 0 || b / 2 == 0), "reply entry point present iff supplied");
+        assert!(s == (a / 2 == 1 || b / 2 == 1), "sudo entry point present iff supplied");
+        assert!(m == (a / 2 == 2 || b / 2 == 2), "migrate entry point present iff supplied");
+    }
+
+    /// six orders of three steps, one per kind, mixing the plain and the *_empty variants
+    #[kani::proof]
+    fn c20_entry_points_kept_by_triples_of_steps() {
+        let o: u8 = kani::any();
+        kani::assume(o < 6);
+        let (r, s, m) = match o {
+            0 => flags!(ContractWrapper::new(ex, ex, qu).with_reply(rp).with_sudo_empty(pm).with_migrate(pm)),
+            1 => flags!(ContractWrapper::new(ex, ex, qu).with_reply_empty(rp).with_sudo(pm).with_migrate_empty(pm)),
+            2 => flags!(ContractWrapper::new(ex, ex, qu).with_sudo(pm).with_reply(rp).with_migrate_empty(pm)),
+            3 => flags!(ContractWrapper::new(ex, ex, qu).with_sudo_empty(pm).with_migrate(pm).with_reply_empty(rp)),
+            4 => flags!(ContractWrapper::new(ex, ex, qu).with_migrate(pm).with_reply_empty(rp).with_sudo(pm)),
+            5 => flags!(ContractWrapper::new(ex, ex, qu).with_migrate_empty(pm).with_sudo_empty(pm).with_reply(rp)),
+            _ => (false, false, false),
+        };
+        kani::cover!(o == 5, "last order reached");
+        assert!(r && s && m, "all three optional entry points present after three steps in any order");
+    }
+
+    /// a fresh wrapper has none of the optional entry points
+    #[kani::proof]
+    fn c20_no_optional_entry_points_by_default() {
+        let (r, s, m) = flags!(ContractWrapper::new(ex, ex, qu));
+        kani::cover!(true, "reached");
+        assert!(!r && !s && !m);
+    }
 }
